@@ -39,8 +39,8 @@ func (r *recorder) Signal(<-chan interface{}) <-chan interface{} { return nil }
 func (r *recorder) Flush(int64)                                  {}
 func (r *recorder) Dispatch(*t_aio.Submission, func(*t_aio.Completion, error)) {
 }
-func (r *recorder) EnqueueSQE(*SQE)      {}
-func (r *recorder) EnqueueCQE(c *CQE)    { r.cqes = append(r.cqes, c) }
+func (r *recorder) EnqueueSQE(*SQE)       {}
+func (r *recorder) EnqueueCQE(c *CQE)     { r.cqes = append(r.cqes, c) }
 func (r *recorder) DequeueCQE(int) []*CQE { return nil }
 
 type plugin struct {
